@@ -177,6 +177,12 @@ theorem inv_push {b : NackBuf} (i : b.Inv) (s : UInt16) (t : Nat) : (b.push s t)
 theorem inv_step {b : NackBuf} (i : b.Inv) (o : BufOp) : (b.step o).1.Inv := by
   cases o with
   | push s t => exact inv_push i s t
+  | sent ssrc s t =>
+    simp only [NackBuf.step]
+    split
+    · exact i
+    · exact inv_push i s t
+  | setRtx ssrc => exact ⟨i.maxPos, i.bounded, i.nodup, i.keys⟩
   | query now seqs => exact ⟨i.maxPos, i.bounded, i.nodup, i.keys⟩
 
 theorem inv_final {b : NackBuf} (i : b.Inv) (ops : List BufOp) : (bufFinal b ops).Inv := by
